@@ -24,6 +24,7 @@ import (
 	"net/http"
 	"net/http/httptest"
 	"os"
+	"runtime/pprof"
 	"sort"
 	"strconv"
 	"strings"
@@ -79,12 +80,12 @@ type hist struct {
 	log, other, plain *truthLog
 	otherTicket       []byte // a current-epoch ticket sealed for otherOrigin
 
-	epoch     int
-	tickets   [][]byte
+	epoch       int
+	tickets     [][]byte
 	ticketSizes []int64 // the size sealed in each issued ticket (= the pending line of its mirror-info)
-	sessions  []*session
-	nextSid   int
-	resumeDue bool
+	sessions    []*session
+	nextSid     int
+	resumeDue   bool
 
 	plan    plan
 	evCount int   // scripted events so far
@@ -581,7 +582,14 @@ func main() {
 	scen := flag.String("scenario", "", "run only this fixed scenario (\"random\": only the random histories; \"none\": no fixed scenario)")
 	outPath := flag.String("out", "", "history file (default stdout)")
 	big := flag.Bool("big", true, "include the big scenario (log of about 66,500 entries)")
+	prof := flag.String("cpuprofile", "", "write a CPU profile to this file")
 	flag.Parse()
+	if *prof != "" {
+		f, err := os.Create(*prof)
+		must(err)
+		must(pprof.StartCPUProfile(f))
+		defer pprof.StopCPUProfile()
+	}
 
 	witness.VerifMirrorSetHooks(hookPackage, hookCommit)
 
